@@ -191,7 +191,8 @@ theorem pageUrl_invariant {l₁ l₂ : List Name} (h : l₁.Perm l₂) (full : N
     simp [h1, h2]
 
 /-- `writeSummaryPages` — the name that becomes a symlink to index.html -/
-theorem rootSymlink_invariant {l₁ l₂ : List Name} (h : l₁.Perm l₂) : rootSymlink l₁ = rootSymlink l₂ := by
+theorem rootSymlink_invariant {l₁ l₂ : List Name} (h : l₁.Perm l₂) (pageFiles : List Name) :
+    rootSymlink l₁ pageFiles = rootSymlink l₂ pageFiles := by
   unfold rootSymlink
   have hl := h.length_eq
   by_cases h1 : l₁.length = 1
@@ -204,16 +205,44 @@ theorem rootSymlink_invariant {l₁ l₂ : List Name} (h : l₁.Perm l₂) : roo
     simp [h1, h2]
 
 /-- under its guard the `list(...)[0]` never raises -/
-theorem rootSymlink_no_indexError (l : List Name) : rootSymlink l ≠ .indexError := by
+theorem rootSymlink_no_indexError (l pageFiles : List Name) : rootSymlink l pageFiles ≠ .indexError := by
   unfold rootSymlink
   by_cases h1 : l.length = 1
   · obtain ⟨x, hx⟩ := List.length_eq_one_iff.mp h1
     subst hx
-    simp
+    simp only [List.length_cons, List.length_nil, if_true, List.getElem?_cons_zero]
+    split
+    · simp
+    · split <;> simp
   · simp [h1]
 
+/-- the alias never takes the name of index.html nor of a summary / search page of the run (since /repo
+5201211): this is what makes the `wfRun` hypothesis of `rerun_idempotent` true of every real run -/
+theorem rootSymlink_link_fresh (l pageFiles : List Name) (s : Name) (h : rootSymlink l pageFiles = .link s) :
+    s ≠ indexHtml ∧ pageFiles.contains s = false := by
+  unfold rootSymlink at h
+  by_cases h1 : l.length = 1
+  · obtain ⟨x, hx⟩ := List.length_eq_one_iff.mp h1
+    subst hx
+    simp only [List.length_cons, List.length_nil, if_true, List.getElem?_cons_zero] at h
+    by_cases h2 : x ++ dotHtml = indexHtml
+    · simp [h2] at h
+    · cases h3 : pageFiles.contains (x ++ dotHtml) with
+      | true => simp only [h2, if_false, h3, if_true] at h; cases h
+      | false =>
+        simp only [h2, if_false, h3, Bool.false_eq_true] at h
+        have : x ++ dotHtml = s := by simpa using h
+        subst this
+        exact ⟨h2, h3⟩
+  · simp [h1] at h
+
+example : rootSymlink [[112]] [[99] ++ dotHtml] = .link ([112] ++ dotHtml) := by decide
+example : rootSymlink [[99]] [[99] ++ dotHtml] = .noLink := by decide
+example : rootSymlink [[105, 110, 100, 101, 120]] [] = .noLink := by decide
+
 /-- `summaryPages` — whether index.html is the IndexPage -/
-theorem hasIndexPage_invariant {l₁ l₂ : List Name} (h : l₁.Perm l₂) : hasIndexPage l₁ = hasIndexPage l₂ := by
+theorem hasIndexPage_invariant {l₁ l₂ : List Name} (h : l₁.Perm l₂) (anyRootVisible : Bool) :
+    hasIndexPage l₁ anyRootVisible = hasIndexPage l₂ anyRootVisible := by
   unfold hasIndexPage
   rw [h.length_eq]
 
@@ -799,8 +828,9 @@ example :
      | .error _ => false) = true := by
   decide
 
-/- a single root module called like a summary page: `s` is also written before the link is made, and
-a re-run writes it THROUGH the old link into index.html, which is rewritten afterwards -/
+/- (shape of the code before /repo 5201211, still inside the hypothesis) a single root module called like a
+summary page: `s` is also written before the link is made, and a re-run writes it THROUGH the old link into
+index.html, which is rewritten afterwards.  The current code makes no alias there (`rootSymlink_link_fresh`). -/
 example :
     let ops := runOps [([3], 10)] (some ([3], [4])) [([4], 12)]
     wfRun [([3], 10)] (some ([3], [4])) [([4], 12)] = true ∧
@@ -811,8 +841,8 @@ example :
      | .error _ => false) = true := by
   decide
 
-/- outside the hypothesis: a root module called `index` makes the link point at itself and the root
-page cannot be written (the run aborts) -/
+/- outside the hypothesis: a link that points at itself (what a root module called `index` produced before the
+alias was skipped for it): the root page cannot be written -/
 example : wfRun [] (some ([4], [4])) [([4], 12)] = false ∧ (match run (runOps [] (some ([4], [4])) [([4], 12)]) [] with
     | .error .eloop => true
     | _ => false) = true := by
